@@ -45,6 +45,9 @@ CHECKS = {
     "C14": ("Lean 4 proof + differential correspondence",
             "C14_signal_iff, C14_completing_press, C14_tracker_is_keys_down, C14_never_when_empty(_history).",
             "The blocking send on the signal channel is not modelled."),
+    "C15": ("Lean 4 proof over transition-system models of the fan-out and the relay (all interleavings of the model) + source fact regenerated from fan.go + scripted and free-running runs of the real goroutines",
+            "C15_source_facts (the broadcast send is selected against a per-output leaving signal), C15_despawn_blocks_unguarded (machine-checked witness of the repaired deadlock), C15_despawn_completes_on_wedge; further theorems (exactly-once invariant over all schedules, relay order) in HidiProofs/Props/C15.lean as listed in the evidence.",
+            "Partial by nature: goroutine scheduling belongs to the Go runtime; conformance of the real goroutines to the model is sampled (scripts + stress runs with watchdogs), the theorems cover every interleaving of the model only."),
     "C18": ("Lean 4 proof over a file-tree model + differential correspondence + real interrupted runs (RLIMIT_FSIZE, strace fault injection)",
             "C18_frame (user files untouched, any tree), C18_restores (factory files equal the template after a successful run), C18_blacklist_created; crash states of the model are replayed on the real function.",
             "Trusted: per-syscall behaviour of the filesystem; a crash inside write(2) is an arbitrary prefix; permissions not varied (root)."),
